@@ -2,6 +2,9 @@ package props
 
 import (
 	"fmt"
+	"math/rand"
+	"strings"
+	"sync/atomic"
 	"testing"
 
 	tls "github.com/refraction-networking/utls"
@@ -204,5 +207,79 @@ func TestC13(t *testing.T) {
 	r.Floor("completed", 300)
 	r.Floor("sentinel_rejected", 50)
 	r.Floor("unadvertised_version_rejected", 50)
+	// renegotiation: the hello the client sends in answer to a HelloRequest advertises versions
+	// too, and a ServerHello at a version outside them must be refused on the spot (alert
+	// protocol_version), whatever the spec's TLSVersMin says
+	{
+		var rt []Target
+		rt = append(rt, ParrotTargets(false)...)
+		for i := 0; i < mon.Pick(10, 200); i++ {
+			rt = append(rt, CustomTarget(i))
+		}
+		kind := renegKinds()[0] // TLS 1.2 server
+		var refused, accepted atomic.Int64
+		parallel(len(rt)*2, func(i int) {
+			tg := rt[i/2]
+			ch, err := tg.Probe("example.test")
+			if err != nil {
+				return
+			}
+			o := OfferOf(ch, targetMinVersion(tg))
+			if !kind.ok(o) {
+				return
+			}
+			var forced uint16
+			var sawAlert = -2
+			cs := renegCase{tg: tg, kind: kind, seed: i, reneg: -1, requests: 1, can13: has13x(o)}
+			cs.script = renegScript{"sh_unadvertised_version", func(rg *rand.Rand, ch2 *wire.ClientHello) []renegRec {
+				if ch2 == nil {
+					return nil
+				}
+				adv := map[uint16]bool{}
+				for _, v := range ch2.Versions {
+					adv[v] = true
+				}
+				if len(ch2.Versions) == 0 {
+					return nil // no supported_versions: the legacy range applies (first part of the statement, covered above)
+				}
+				for _, v := range []uint16{tls.VersionTLS11, tls.VersionTLS10}[i%2:] {
+					if !adv[v] {
+						forced = v
+						break
+					}
+				}
+				if forced == 0 {
+					return nil
+				}
+				sh := shFor(rg, ch2, false)
+				sh.Version = forced
+				sh.Exts = nil // nothing else to object to
+				return []renegRec{hsRec(sh.Marshal())}
+			}}
+			cs.id = renegCaseID(cs)
+			res := c33RunReneg(cs)
+			if !res.gotHello2 || forced == 0 {
+				return
+			}
+			sig := map[string]string{"kind": "unadvertised_version_accepted_in_renegotiation", "target": family(tg.Name)}
+			if res.panicked != "" {
+				sig["kind"] = "panic"
+				r.Violation(sig, tg.Name+": "+firstLine(res.panicked), nil)
+				return
+			}
+			// what the client says about the ServerHello: the version must be the objection
+			msg := fmt.Sprint(res.readErr)
+			if strings.Contains(msg, "did not advertise") || strings.Contains(msg, "unsupported protocol version") || strings.Contains(msg, "unsupported, maximum protocol version") {
+				sawAlert = 70
+				refused.Add(1)
+			} else {
+				accepted.Add(1)
+				r.Violation(sig, fmt.Sprintf("%s: the renegotiation ClientHello advertises %04x; a ServerHello at %#04x was not refused with protocol_version (client read error: %v)", tg.Name, ch.Versions, forced, res.readErr), map[string]any{"target": tg.Name, "forced": forced})
+			}
+			r.Case(fmt.Sprintf("reneg-version|%s|%04x|%d", family(tg.Name), forced, sawAlert), true)
+		})
+		r.Count("renegotiation_versions_refused", refused.Load())
+		r.Floor("renegotiation_versions_refused", 20)
+	}
 	r.Floor("returning_client_offered_a_session", 100)
 }
